@@ -15,6 +15,7 @@ import (
 
 	"github.com/saucelabs/forwarder"
 	"github.com/saucelabs/forwarder/verifharness/lib"
+	"github.com/saucelabs/forwarder/verifharness/wiring"
 )
 
 type world struct {
@@ -286,6 +287,7 @@ func main() {
 	run.Floor("bad_origin_checks", 16)
 	run.Floor("insecure_bad_origin_reached", 4)
 	run.Floor("aged_certificate_handshakes", 20)
+	wiring.Run(run, "C07")
 	run.Finish()
 }
 
